@@ -14,7 +14,8 @@ from ..runner import ok, fail, discard, HarnessError
 PROP = 'C20'
 RULE = ('case = (wire widths, command list from the grammar I<hex>= / <hex>! / O<hex>? / K<hex>; with 1..10 upper-case '
         'hex digits (leading zeros allowed) and optional newline separators, producer idle gaps, consumer ready '
-        'pattern, vin/size for every response). Non-trivial iff the stream has >= 1 multi-digit number, >= 1 K with '
+        'pattern, vin/size for every response; stratum response_encoder_alone: a requester pulses start_resp directly, '
+        'also in the first cycle after the previous response ended). Non-trivial iff the stream has >= 1 multi-digit number, >= 1 K with '
         'n >= 2 and >= 1 consumer stall inside a response. Distinct by JSON hash.')
 ASSUMPTIONS = [
     'the producer holds each character valid until the edge at which ready and valid are both 1 (ready/valid port)',
@@ -71,6 +72,8 @@ def build_stream(case):
 
 
 def run_case(case):
+    if case.get('kind') == 'encoder':
+        return run_encoder(case)
     chars, exp_actions, exp_resp, waits = build_stream(case)
     sysm = py4hw.HWSystem()
     w = sysm.wire
@@ -176,6 +179,75 @@ def run_case(case):
     return ok(nt, tags, info={'responses': resp_log, 'cycles': t})
 
 
+def run_encoder(case):
+    """the response encoder on its own: a requester drives start_resp directly, each one-cycle pulse issued `gap` cycles
+    after the cycle in which the previous '!' was handed over (gap 0 = the first cycle in which no response is in
+    progress), vin / size held during the response"""
+    sysm = py4hw.HWSystem()
+    w = sysm.wire
+    vin, size, start_resp = w('vin', 32), w('size', 8), w('start_resp')
+    cready, cvalid, cv = w('cready'), w('cvalid'), w('cv', 8)
+    CMDResponse(sysm, 'resp', vin, size, start_resp, cready, cvalid, cv)
+    sim = sysm.getSimulator()
+    reqs = case['reqs']
+    rpat = case['ready'] or [1]
+    if not any(rpat):
+        rpat = rpat + [1]
+    exp = ['=' + ''.join(HEX[(v >> (4 * (sz - 1 - i))) & 15] for i in range(sz)) + '!' for v, sz, g in reqs]
+    budget = 40 + sum(g for _, _, g in reqs) + sum(len(e) for e in exp) * (4 + 2 * len(rpat))
+    k = 0
+    busy = False
+    wait = reqs[0][2]
+    cur = ''
+    out = []
+    t = 0
+    done_at = None
+    while t < budget:
+        pulse = 0
+        if not busy and k < len(reqs):
+            if wait == 0:
+                pulse = 1
+                busy = True
+                vin.put(reqs[k][0])
+                size.put(reqs[k][1])
+            else:
+                wait -= 1
+        start_resp.put(pulse)
+        r = rpat[t % len(rpat)]
+        cready.put(r)
+        sim.propagateAll()
+        if cvalid.get() == 1 and r == 1:
+            ch = chr(cv.get())
+            cur += ch
+            if ch == '!':
+                out.append(cur)
+                cur = ''
+                if busy:
+                    k += 1
+                    busy = False
+                    wait = reqs[k][2] if k < len(reqs) else 0
+        sim.clk(1)
+        t += 1
+        if k >= len(reqs) and not busy:
+            if done_at is None:
+                done_at = t
+            elif t >= done_at + 6:       # a few more cycles: nothing else may be emitted
+                break
+    tags = ['encoder_alone'] + (['back_to_back_requests'] if any(g == 0 for _, _, g in reqs[1:]) else [])
+    ctx = 'requests (vin, size, gap) {} ready {}'.format(reqs, rpat)
+    if out != exp or cur:
+        kind = 'missing' if len(out) < len(exp) else ('extra' if len(out) > len(exp) or cur else 'value')
+        return fail('encoder|response_' + kind, 'responses {} (+{!r}) expected {} after {} cycles; {}'.format(out, cur, exp, t, ctx), cls=tags)
+    return ok(len(reqs) >= 2 and any(g == 0 for _, _, g in reqs[1:]) and 0 in rpat, tags)
+
+
+def encoder_cases():
+    req = st.tuples(st.one_of(st.integers(0, mask(32)), st.sampled_from([0, 0xA, 0xDEADBEEF, 0xFFFFFFFF])), st.integers(1, 8),
+                    st.sampled_from([0, 0, 0, 1, 2, 5])).map(list)
+    return st.fixed_dictionaries({'kind': st.just('encoder'), 'reqs': st.lists(req, min_size=1, max_size=5),
+                                  'ready': st.lists(st.integers(0, 1), min_size=1, max_size=5)})
+
+
 def _num(maxbits):
     nd = st.integers(1, 10)
     return nd.flatmap(lambda d: st.tuples(st.one_of(st.integers(0, (1 << min(4 * d, maxbits)) - 1),
@@ -202,6 +274,13 @@ def case_strategy():
 
 
 def shrink_candidates(case):
+    if case.get('kind') == 'encoder':
+        rq = case['reqs']
+        for i in range(len(rq)):
+            if len(rq) > 1:
+                yield dict(case, reqs=rq[:i] + rq[i + 1:])
+        yield dict(case, ready=[1])
+        return
     cm = case['cmds']
     for i in range(len(cm)):
         if len(cm) > 1:
@@ -219,4 +298,5 @@ def shrink_candidates(case):
 
 def strata(tier):
     n = 600 if tier == 'quick' else 20000
-    return [{'name': 'command_streams', 'kind': 'hyp', 'examples': n, 'strategy': case_strategy, 'run_case': run_case}]
+    return [{'name': 'command_streams', 'kind': 'hyp', 'examples': n, 'strategy': case_strategy, 'run_case': run_case},
+            {'name': 'response_encoder_alone', 'kind': 'hyp', 'examples': n // 2, 'strategy': encoder_cases, 'run_case': run_case}]
